@@ -236,5 +236,6 @@ def check(tier):
             ck.add_mutant(name, m, "copy", "harness.C20", "copy_job", dict(cases=advs[:6]))
         else:
             ck.add_mutant(name, m, "partition", "harness.C20", "partition_job", dict(cases=parts[:2]), unwind=mx + 2)
+    ck.validate = ['queue']
     ck.run()
     return ck.finish(replay=REPLAY)
